@@ -160,6 +160,10 @@ import BGV
 #print axioms BGV.C09_getDirectedGraph
 #print axioms BGV.C09_uOfDirected
 #print axioms BGV.C09_und_dir_und
+#print axioms BGV.C09_dmulti_ofEdgeList
+#print axioms BGV.C09_umulti_ofEdgeList
+#print axioms BGV.C09_dweighted_ofEdgeList
+#print axioms BGV.C09_uweighted_ofEdgeList
 
 -- C10
 #print axioms BGV.C10_getSubgraph
@@ -200,6 +204,8 @@ import BGV
 #print axioms BGV.C14_roundtrip_records
 #print axioms BGV.C14_codec_unsigned
 #print axioms BGV.C14_codec_signed
+#print axioms BGV.C14_codec_float
+#print axioms BGV.C14_codec_double
 #print axioms BGV.C14_dir_roundtrip
 #print axioms BGV.C14_und_roundtrip
 
@@ -213,6 +219,8 @@ import BGV
 #print axioms BGV.C16_removeEdge_all_copies
 #print axioms BGV.C16_removeDuplicateEdges
 #print axioms BGV.C16_dedup_restores_inv
+#print axioms BGV.C16_uweighted_forced_add
+#print axioms BGV.C16_umulti_forced_add
 #print axioms BGV.C16_multi_removeDuplicateEdges
 #print axioms BGV.C16_umulti_removeDuplicateEdges
 #print axioms BGV.C16_uweighted_removeDuplicateEdges
